@@ -58,6 +58,7 @@ def strategy(tier):
         # which pool PIDs are alive at the start (bit i) and have an object
         setup=st.integers(0, 63),
         tick0=st.sampled_from([False, False, True]),   # first pool process starts at tick 0
+        odd_comm=st.booleans(),   # process names with parentheses / blanks
         ops=history.with_motifs(ops, 6, nops),
     ))
 
@@ -71,7 +72,8 @@ HELPER_SIG = {"suspend": signal.SIGSTOP, "resume": signal.SIGCONT,
 def run_case(case):
     import psutil
 
-    w = history.World(with_pid0=case["pid0"], first_tick=-1 if case.get("tick0") else 100)
+    w = history.World(with_pid0=case["pid0"], first_tick=-1 if case.get("tick0") else 100,
+                      odd_comm=case.get("odd_comm", False))
     k = w.k
     labels = set()
     nontrivial = set()
